@@ -341,47 +341,47 @@ theorem commPointsK_length_diag (a b c : Int) (ha : 0 < a) (hb : 0 < b) (hc : 0 
 
 /-! ### categorisation -/
 
+theorem mem_catII {pts : List P3} {i : Nat} : i ∈ catII pts ↔ i < pts.length ∧ partnerIdx pts i = some i := by
+  simp only [catII, List.mem_filterMap, List.mem_range]
+  constructor
+  · rintro ⟨i', hi', ht⟩
+    split at ht
+    · next e =>
+      simp only [Option.some.injEq] at ht
+      subst ht
+      exact ⟨hi', by simpa using e⟩
+    · exact absurd ht (by simp)
+  · rintro ⟨hi, hp⟩
+    exact ⟨i, hi, by simp only [hp, beq_self_eq_true, if_true]⟩
+
+theorem mem_catIJ {pts : List P3} {i : Nat} :
+    i ∈ catIJ pts ↔ i < pts.length ∧ ∃ j, partnerIdx pts i = some j ∧ i < j := by
+  simp only [catIJ, List.mem_filterMap, List.mem_range]
+  constructor
+  · rintro ⟨i', hi', ht⟩
+    split at ht
+    · next j hj =>
+      split at ht
+      · next hlt =>
+        simp only [Option.some.injEq] at ht
+        subst ht
+        exact ⟨hi', j, hj, hlt⟩
+      · exact absurd ht (by simp)
+    · exact absurd ht (by simp)
+  · rintro ⟨hi, j, hp, hlt⟩
+    exact ⟨i, hi, by simp only [hp, hlt, if_true]⟩
+
 theorem categorize_spec (pts : List P3) (ii ij : List Nat) (h : categorize pts = some (ii, ij)) :
     ii.length + ij.length * 2 = pts.length ∧
-    (∀ i, i ∈ ii ↔ i < pts.length ∧ partner pts (pts.getD i (0, 0, 0)) = some i) ∧
-    (∀ i, i ∈ ij ↔ i < pts.length ∧ ∃ j, partner pts (pts.getD i (0, 0, 0)) = some j ∧ i < j) := by
+    (∀ i, i ∈ ii ↔ i < pts.length ∧ partnerIdx pts i = some i) ∧
+    (∀ i, i ∈ ij ↔ i < pts.length ∧ ∃ j, partnerIdx pts i = some j ∧ i < j) := by
   unfold categorize at h
-  simp only [] at h
   split at h
   · next hc =>
     simp only [Option.some.injEq, Prod.mk.injEq] at h
     obtain ⟨h1, h2⟩ := h
     subst h1 h2
-    refine ⟨by simpa using hc, ?_, ?_⟩
-    · intro i
-      simp only [List.mem_filterMap, List.mem_map, List.mem_range]
-      constructor
-      · rintro ⟨t, ⟨i', hi', rfl⟩, ht⟩
-        simp only at ht
-        split at ht
-        · next e =>
-          simp only [Option.some.injEq] at ht
-          subst ht
-          exact ⟨hi', by simpa using e⟩
-        · exact absurd ht (by simp)
-      · rintro ⟨hi, hp⟩
-        exact ⟨(i, partner pts (pts.getD i (0, 0, 0))), ⟨i, hi, rfl⟩, by simp only [hp, beq_self_eq_true, if_true]⟩
-    · intro i
-      simp only [List.mem_filterMap, List.mem_map, List.mem_range]
-      constructor
-      · rintro ⟨t, ⟨i', hi', rfl⟩, ht⟩
-        simp only at ht
-        split at ht
-        · next j hj =>
-          split at ht
-          · next hlt =>
-            simp only [Option.some.injEq] at ht
-            subst ht
-            exact ⟨hi', j, hj, hlt⟩
-          · exact absurd ht (by simp)
-        · exact absurd ht (by simp)
-      · rintro ⟨hi, j, hp, hlt⟩
-        exact ⟨(i, partner pts (pts.getD i (0, 0, 0))), ⟨i, hi, rfl⟩, by simp only [hp, hlt, if_true]⟩
+    exact ⟨by simpa using hc, fun i => mem_catII, fun i => mem_catIJ⟩
   · exact absurd h (by simp)
 
 end PhononModel.C06
